@@ -72,7 +72,7 @@ func (s *Scheme) handleSync(msg *IncMessage) {
 	s.lock.RUnlock()
 
 	if !exists {
-		s.Logger.Debugf("Received SYNC message for topic %s from %d but no instance expects it", hex.EncodeToString(msg.Topic)[:8], msg.Source)
+		s.Logger.Debugf("Received SYNC message for topic %s from %d but no instance expects it", shortHex(msg.Topic), msg.Source)
 		return
 	}
 
@@ -80,20 +80,20 @@ func (s *Scheme) handleSync(msg *IncMessage) {
 }
 
 func (s *Scheme) handleMPC(msg *IncMessage) {
-	s.Logger.Debugf("msg on topic %s from %d", hex.EncodeToString(msg.Topic[:8]), msg.Source)
+	s.Logger.Debugf("msg on topic %s from %d", shortHex(msg.Topic), msg.Source)
 	s.lock.RLock()
 	handleRBC, rbcExists := s.rbcInProgress[string(msg.Topic)]
 	classifier, classifierExists := s.messageClassifiers[string(msg.Topic)]
 	s.lock.RUnlock()
 
 	if !rbcExists {
-		s.Logger.Warnf("Received MPC message for topic %s but no RBC instance expects it", hex.EncodeToString(msg.Topic)[:8])
+		s.Logger.Warnf("Received MPC message for topic %s but no RBC instance expects it", shortHex(msg.Topic))
 		s.Logger.Warnf("RBCMessage: %s", base64.StdEncoding.EncodeToString(msg.Data))
 		return
 	}
 
 	if !classifierExists {
-		s.Logger.Warnf("Received MPC message for topic %s but no classifier for it", hex.EncodeToString(msg.Topic)[:8])
+		s.Logger.Warnf("Received MPC message for topic %s but no classifier for it", shortHex(msg.Topic))
 		return
 	}
 
@@ -132,7 +132,7 @@ func (s *Scheme) handleRBC(msg *IncMessage, rbcEncoding rbcEncoding, classifier 
 	rbcMsg.digest = hash(rawMsgBytes)
 
 	s.Logger.Debugf("Received MPC %smessage from %d on topic %s for round %d",
-		broadcastString, msg.Source, hex.EncodeToString(msg.Topic[:8]), msgRound)
+		broadcastString, msg.Source, shortHex(msg.Topic), msgRound)
 
 	handleRBC(&rbcMsg, msg.Source)
 }
@@ -141,7 +141,7 @@ func (s *Scheme) handleAck(msg *IncMessage, round uint8, sender uint16, digest [
 	var rbcMsg rbcMsg
 
 	s.Logger.Debugf("Received RBC ack for topic %s with digest %s on round %d about %d from %d",
-		hex.EncodeToString(msg.Topic[:8]), hex.EncodeToString(digest[:8]), round, sender, msg.Source)
+		shortHex(msg.Topic), shortHex(digest), round, sender, msg.Source)
 	rbcMsg.digest = digest
 	rbcMsg.sender = sender
 	rbcMsg.round = round
@@ -291,7 +291,7 @@ func (s *Scheme) runDKG(ctx context.Context, membership *membership, dkgProtocol
 		broadcastParties := excludeUniversal(membership.universalIdentifiers, s.SelfID)
 
 		rbc := s.RBF(func(digest string, sender uint16, msgRound uint8) {
-			s.Logger.Debugf("Broadcasting ack with digest %s for round %d about %d", hex.EncodeToString([]byte(digest)[:8]), msgRound, sender)
+			s.Logger.Debugf("Broadcasting ack with digest %s for round %d about %d", shortHex([]byte(digest)), msgRound, sender)
 			payload := newRBCEncoding(digest, sender, msgRound)
 			s.Send(uint8(MsgTypeMPC), dkgTopicHash, payload, broadcastParties...)
 		}, func(m interface{}, from uint16) {
@@ -448,6 +448,10 @@ func (s *Scheme) Sign(c context.Context, msgHash []byte, topic string) ([]byte, 
 	topicHash := hash([]byte(topic))
 	topicHashText := hex.EncodeToString(topicHash)
 	msgHashHex := hex.EncodeToString(msgHash)
+	if len(msgHashHex) < 8 {
+		// only ever used for logging its first 8 characters
+		msgHashHex += strings.Repeat(" ", 8-len(msgHashHex))
+	}
 
 	start := time.Now()
 
@@ -886,6 +890,14 @@ func (r *threadSafeRBC) Receive(m RBCMessage, from uint16) {
 	r.h(m, from)
 }
 
+// shortHex returns the hex encoding of at most the first 4 bytes of the given input, for logging
+func shortHex(in []byte) string {
+	if len(in) > 4 {
+		in = in[:4]
+	}
+	return hex.EncodeToString(in)
+}
+
 func hash(in []byte) []byte {
 	h := sha256.New()
 	h.Write(in)
@@ -936,6 +948,10 @@ func (r rbcEncoding) Payload() []byte {
 }
 
 func (r rbcEncoding) Ack() (digest []byte, sender uint16, msgRound uint8, err error) {
+	if len(r) == 0 {
+		return nil, 0, 0, fmt.Errorf("message is empty")
+	}
+
 	// In ack messages, the MSB of the first byte is 0
 	if r[0]>>7 != 0 {
 		return nil, 0, 0, nil
